@@ -272,8 +272,14 @@ func runC09(ctx *Ctx, c *c09Case) {
 	if !returned {
 		select {
 		case res = <-done:
-		case <-time.After(60 * time.Second):
-			ctx.Inconclusive("controller.Run did not return after cancel for " + jsonStr(c))
+		case <-time.After(65 * time.Second):
+			// a watchdog by itself decides nothing; a fan2go goroutine that has been waiting for a lock for a minute does:
+			// the controller cannot be stopped any more, so the fan is never handed back
+			if blocked := lockedForMinutes(); blocked != "" {
+				ctx.Violation("controller-cannot-be-stopped-after-fault:"+c.class(), fmt.Sprintf("Run() had not returned 65 s after cancel; a fan2go goroutine waits for a lock:\n%s\ncase %s", blocked, jsonStr(c)), c)
+			} else {
+				ctx.Inconclusive("controller.Run did not return after cancel for " + jsonStr(c))
+			}
 			ctx.Abort = true
 			return
 		}
